@@ -355,20 +355,9 @@ class Parser:
         stream.expect(TOKEN_SLICE_STEP)
         step_token = stream.current
 
-        if not start_token.value:
-            start: Optional[int] = None
-        else:
-            start = int(start_token.value)
-
-        if not stop_token.value:
-            stop: Optional[int] = None
-        else:
-            stop = int(stop_token.value)
-
-        if not step_token.value:
-            step: Optional[int] = None
-        else:
-            step = int(step_token.value)
+        start = self._slice_int(start_token)
+        stop = self._slice_int(stop_token)
+        step = self._slice_int(step_token)
 
         return SliceSelector(
             env=self.env,
@@ -377,6 +366,17 @@ class Parser:
             stop=stop,
             step=step,
         )
+
+    def _slice_int(self, token: Token) -> Optional[int]:
+        if not token.value:
+            return None
+        try:
+            return int(token.value)
+        except ValueError:
+            # A lone sign, for example.
+            raise JSONPathSyntaxError(
+                f"invalid slice index {token.value!r}", token=token
+            ) from None
 
     def parse_selector_list(self, stream: TokenStream) -> ListSelector:  # noqa: PLR0912
         """Parse a comma separated list JSONPath selectors from a stream of tokens."""
